@@ -871,3 +871,77 @@ benign("C02","refusal-message-in-helper",[
 
 func (k msgServer) PostProof("""),
 ])
+
+# ---- round 4 of independent seeded changes (batch 2)
+from_patch("C11","seed4-buystorage-signer-from-foraddress","seeded/C11-buystorage-signer-from-foraddress/patch.diff","C11/R1","storage.MsgBuyStorage:signer","seed round 4")
+from_patch("C12","seed4-gauge-funded-with-merged-record","seeded/C12-gauge-funded-with-merged-record/patch.diff","C12/R8","deposit=constructor-argument","seed round 4")
+from_patch("C04","seed4-gauge-funded-with-merged-record","seeded/C12-gauge-funded-with-merged-record/patch.diff","C04/R2","gauge-funded=recorded","seed round 4 (written against C12)")
+from_patch("C13","seed4-clamp-moved-from-result-to-input","seeded/C13-clamp-moved-from-result-to-input/patch.diff","C13/R3","negative-emission","seed round 4")
+from_patch("C14","seed4-quorum-and-formsize-keys-swapped","seeded/C14-quorum-and-formsize-keys-swapped/patch.diff","C14/R8","param-key:AttestMinToPass","seed round 4")
+from_patch("C15","seed4-collateral-export-through-pagination","seeded/C15-collateral-export-through-pagination/patch.diff","C15/R6","export-paginated:GetAllCollateral","seed round 4")
+from_patch("C16","seed4-init-overwrites-paid-name","seeded/C16-init-overwrites-paid-name/patch.diff","C16/R3","rns.MsgInit:live-name-protected","seed round 4")
+from_patch("C17","seed4-last-prover-removal-skips-save","seeded/C17-last-prover-removal-skips-save/patch.diff","C17/R2","RemoveProverWithKey:proofs-list-update","seed round 4")
+from_patch("C18","seed4-notification-keys-through-path-join","seeded/C18-notification-keys-through-path-join/patch.diff","C18/R3","inbox-component-is-signer","seed round 4")
+from_patch("C19","seed4-mint-import-completes-zero-params","seeded/C19-mint-import-completes-zero-params/patch.diff","C19/R8","jklmint:import-params-verbatim","seed round 4")
+from_patch("C20","seed4-empty-parent-defaults-to-root","seeded/C20-empty-parent-defaults-to-root/patch.diff","C20/R2","combiner-arguments","seed round 4")
+benign("C12","fund-gauge-helper-with-own-coins",[
+ ("x/storage/keeper/msg_server_buy_storage.go","""	acc, err := types.GetGaugeAccount(gauge)
+	if err != nil {
+		return nil, sdkerrors.Wrapf(err, "cannot get gauge holder account")
+	}
+
+	err = k.bankKeeper.SendCoinsFromModuleToAccount(ctx, types.ModuleName, acc, spcTokens)
+	if err != nil {
+		return nil, sdkerrors.Wrapf(err, "cannot send tokens to token holder account")
+	}
+""","""	err = k.fundGauge(ctx, gauge, spcTokens)
+	if err != nil {
+		return nil, err
+	}
+"""),
+ ("x/storage/keeper/msg_server_buy_storage.go","func (k msgServer) BuyStorage(","""func (k Keeper) fundGauge(ctx sdk.Context, gauge types.PaymentGauge, deposit sdk.Coins) error {
+	acc, err := types.GetGaugeAccount(gauge)
+	if err != nil {
+		return sdkerrors.Wrapf(err, "cannot get gauge holder account")
+	}
+
+	err = k.bankKeeper.SendCoinsFromModuleToAccount(ctx, types.ModuleName, acc, deposit)
+	if err != nil {
+		return sdkerrors.Wrapf(err, "cannot send tokens to token holder account")
+	}
+	return nil
+}
+
+func (k msgServer) BuyStorage("""),
+])
+
+benign("C04","fund-gauge-helper-with-own-coins",[
+ ("x/storage/keeper/msg_server_buy_storage.go","""	acc, err := types.GetGaugeAccount(gauge)
+	if err != nil {
+		return nil, sdkerrors.Wrapf(err, "cannot get gauge holder account")
+	}
+
+	err = k.bankKeeper.SendCoinsFromModuleToAccount(ctx, types.ModuleName, acc, spcTokens)
+	if err != nil {
+		return nil, sdkerrors.Wrapf(err, "cannot send tokens to token holder account")
+	}
+""","""	err = k.fundGauge(ctx, gauge, spcTokens)
+	if err != nil {
+		return nil, err
+	}
+"""),
+ ("x/storage/keeper/msg_server_buy_storage.go","func (k msgServer) BuyStorage(","""func (k Keeper) fundGauge(ctx sdk.Context, gauge types.PaymentGauge, deposit sdk.Coins) error {
+	acc, err := types.GetGaugeAccount(gauge)
+	if err != nil {
+		return sdkerrors.Wrapf(err, "cannot get gauge holder account")
+	}
+
+	err = k.bankKeeper.SendCoinsFromModuleToAccount(ctx, types.ModuleName, acc, deposit)
+	if err != nil {
+		return sdkerrors.Wrapf(err, "cannot send tokens to token holder account")
+	}
+	return nil
+}
+
+func (k msgServer) BuyStorage("""),
+])
